@@ -243,6 +243,80 @@ theorem idle_grant (r : Rule) (v : Val) (tm tk : LRU) (hs : Sync tm tk) (htok : 
   obtain ⟨t1, t2⟩ := htok v last rest hc
   exact ⟨by rw [hdur]; exact i1, t1, t2, by rw [hmax]; exact i2⟩
 
+theorem find_of_cellR {tm tk : LRU} {v : Val} {a q : Int} (hc : cellR tm tk v = some (a, q)) : tm.find v = some a := by
+  unfold cellR at hc
+  cases h1 : tm.find v with
+  | none => rw [h1] at hc; cases hc
+  | some x =>
+    rw [h1] at hc
+    cases h2 : tk.find v with
+    | none => rw [h2] at hc; cases hc
+    | some y => rw [h2] at hc; cases hc; rfl
+
+theorem svReject_time {T maxC dms now b : Int} {cell : Option (Int × Int)} {a q : Int}
+    (h : (svReject T maxC dms cell now b).1 = some (a, q)) : a = now ∨ ∃ q0, cell = some (a, q0) := by
+  cases cell with
+  | none =>
+    unfold svReject at h
+    split_ifs at h <;> first | (cases h; exact Or.inl rfl) | cases h
+  | some c =>
+    obtain ⟨last, rest⟩ := c
+    unfold svReject at h
+    dsimp only at h
+    split_ifs at h <;> first | (cases h; exact Or.inl rfl) | (cases h; exact Or.inr ⟨_, rfl⟩)
+
+/-- the refill time stored for a value is always the clock reading of one of that value's own requests:
+    a step either leaves the time cell of `v` alone or (when the step is a request for `v`) sets it to `now` -/
+theorem time_cell_step (r : Rule) (tm tk : LRU) (hs : Sync tm tk) (now : Int) (u : Val) (b : Int) (v : Val) (a : Int)
+    (h : (rejectCheck r tm tk now u b).1.find v = some a) : (v = u ∧ a = now) ∨ tm.find v = some a := by
+  obtain ⟨s1, s2, s3⟩ := rejectCheck_spec r tm tk hs now u b
+  by_cases hvu : v = u
+  · subst hvu
+    cases h2 : (rejectCheck r tm tk now v b).2.1.find v with
+    | none => rw [(s1.find_none v).mpr h2] at h; cases h
+    | some q' =>
+      have e := congrArg Prod.fst s2
+      simp only at e
+      rw [cellR_some h h2] at e
+      rcases svReject_time e.symm with h3 | ⟨q0, h3⟩
+      · exact Or.inl ⟨rfl, h3⟩
+      · exact Or.inr (find_of_cellR h3)
+  · rcases s3 with ⟨e1, _⟩ | ⟨a1, _⟩
+    · right; rw [e1] at h; exact h
+    · right; exact a1.other v hvu a h
+
+theorem time_cell_le_run (r : Rule) (v : Val) (tl : Int) : ∀ (qs : List Req) (tm tk : LRU), Sync tm tk →
+    (∀ a, tm.find v = some a → a ≤ tl) → (∀ q ∈ qs, q.v = v → q.t ≤ tl) →
+    ∀ a, (endReject r tm tk qs).1.find v = some a → a ≤ tl := by
+  intro qs
+  induction qs with
+  | nil => intro _ _ _ h _; exact h
+  | cons q qs ih =>
+    intro tm tk hs h0 hall
+    apply ih _ _ (rejectCheck_spec r tm tk hs q.t q.v q.b).1
+    · intro a ha
+      rcases time_cell_step r tm tk hs q.t q.v q.b v a ha with ⟨e1, e2⟩ | h1
+      · rw [e2]; exact hall q List.mem_cons_self e1.symm
+      · exact h0 a h1
+    · exact fun x hx => hall x (List.mem_cons_of_mem _ hx)
+
+/-- **idle_grant**, history form: after any history in which the requests for `v` all came at or before `tl`,
+    a request for `v` later than `tl + D` with a batch up to the threshold is granted. -/
+theorem idle_grant_history (r : Rule) (v : Val) (tm tk : LRU) (hs : Sync tm tk) (htok : TokOk r tm tk)
+    (qs : List Req) (tl now b : Int)
+    (hcell0 : ∀ a, tm.find v = some a → a ≤ tl) (hreq : ∀ q ∈ qs, q.v = v → q.t ≤ tl) (hbs : ∀ q ∈ qs, 0 ≤ q.b)
+    (hidle : now - tl > r.D * 1000)
+    (hT : 0 < tokenCount r v) (hb0 : 0 ≤ b) (hbT : b ≤ tokenCount r v) (hburst : 0 ≤ r.burst) (hD : 0 < r.D)
+    (hmax : maxCount r v = tokenCount r v + r.burst) (hdur : durMs r = r.D * 1000)
+    (hfit : ∀ last, (endReject r tm tk qs).1.find v = some last →
+      (now - last) * tokenCount r v + (tokenCount r v + r.burst) < two63) :
+    (rejectCheck r (endReject r tm tk qs).1 (endReject r tm tk qs).2 now v b).2.2 = .pass := by
+  apply idle_grant r v _ _ (caches_in_sync r tm tk hs qs) (tokens_in_range r qs tm tk hs htok hbs) now b
+    hT hb0 hbT hburst hD hmax hdur
+  intro last hl
+  have := time_cell_le_run r v tl qs tm tk hs hcell0 hreq last hl
+  exact ⟨by omega, hfit last hl⟩
+
 /-! ## throttling mode -/
 
 /-- **pacing** and **wait_lt_max.**  While `v` is not evicted, consecutive admitted requests for `v` are scheduled
@@ -417,5 +491,42 @@ theorem over_capacity_witness :
     (forVal "a" (runReject r ⟨1, []⟩ ⟨1, []⟩ [⟨0, "a", 1⟩, ⟨0, "b", 1⟩, ⟨0, "a", 1⟩])).map (·.2) = [.pass, .pass] ∧
     (runReject r ⟨1, []⟩ ⟨1, []⟩ (reqsOf "a" [⟨0, "a", 1⟩, ⟨0, "b", 1⟩, ⟨0, "a", 1⟩])).map (·.2) = [.pass, .block] := by
   decide
+
+/-! ## the hypotheses are satisfiable (non-vacuity): the theorems applied to concrete histories -/
+
+section examples
+
+private def rj : Rule := { res := "r", cb := 0, T := 2, burst := 1, D := 1, cap := 2 }
+private def th : Rule := { res := "r", cb := 1, T := 4, D := 1, mq := 600, cap := 2 }
+
+/-- envelope on a two-value history (a at 0, b at 0, a at 1500 ms): at most 3 + ⌊1500·2/1000⌋ = 6 tokens for `a` -/
+example : admitted (forVal "a" (runReject rj ⟨2, []⟩ ⟨2, []⟩ [⟨0, "a", 1⟩, ⟨0, "b", 3⟩, ⟨1500, "a", 2⟩])) ≤ 6 :=
+  envelope rj "a" ⟨2, []⟩ ⟨2, []⟩ ⟨rfl, rfl, by decide⟩ (by decide) ⟨0, "a", 1⟩ rfl [⟨0, "b", 3⟩, ⟨1500, "a", 2⟩] 1500
+    ⟨by decide, by decide, by decide, trivial⟩ ⟨by decide, by decide, trivial⟩
+    (by decide) (by decide) (by decide) (by decide) (by decide) (by decide)
+
+/-- two-max in the window [0, 1000] -/
+example : admitted (forVal "a" (runReject rj ⟨2, []⟩ ⟨2, []⟩ [⟨0, "a", 3⟩, ⟨0, "b", 3⟩, ⟨1000, "a", 1⟩])) ≤ 6 :=
+  two_max_per_duration rj "a" ⟨2, []⟩ ⟨2, []⟩ ⟨rfl, rfl, by decide⟩ (fresh_tokOk rj) _ 0
+    ⟨by decide, by decide, by decide, trivial⟩ (by decide) (by decide) (by decide) (by decide)
+
+/-- idle grant after a history -/
+example : (rejectCheck rj (endReject rj ⟨2, []⟩ ⟨2, []⟩ [⟨0, "a", 3⟩, ⟨5, "a", 1⟩]).1
+    (endReject rj ⟨2, []⟩ ⟨2, []⟩ [⟨0, "a", 3⟩, ⟨5, "a", 1⟩]).2 1006 "a" 2).2.2 = .pass :=
+  idle_grant_history rj "a" ⟨2, []⟩ ⟨2, []⟩ ⟨rfl, rfl, by decide⟩ (fresh_tokOk rj) _ 5 1006 2
+    (by decide) (by decide) (by decide) (by decide) (by decide) (by decide) (by decide) (by decide) (by decide)
+    (by decide) (by decide) (by decide)
+
+/-- pacing / wait bound on a two-value throttled history -/
+example : WaitsBelow 600 (forVal "a" (runThrottle th ⟨2, []⟩ [⟨0, "a", 1⟩, ⟨0, "a", 1⟩, ⟨0, "b", 1⟩, ⟨0, "a", 1⟩])) :=
+  wait_lt_max th "a" ⟨2, []⟩ (by decide) _ 1000 ⟨by decide, by decide, by decide, by decide, trivial⟩ (by decide)
+    (by decide) (by decide)
+
+/-- independence below the capacity -/
+example : forVal "a" (runReject rj ⟨2, []⟩ ⟨2, []⟩ [⟨0, "a", 1⟩, ⟨0, "b", 3⟩, ⟨1500, "a", 2⟩])
+    = runReject rj ⟨2, []⟩ ⟨2, []⟩ (reqsOf "a" [⟨0, "a", 1⟩, ⟨0, "b", 3⟩, ⟨1500, "a", 2⟩]) :=
+  independence_reject rj "a" ⟨2, []⟩ ⟨2, []⟩ ⟨rfl, rfl, by decide⟩ (by decide) _ (by decide)
+
+end examples
 
 end Sentinel.C05
